@@ -18,6 +18,7 @@ import (
 
 	"verif/harness/common"
 	"verif/hc"
+	"verif/ref/shadow"
 	"verif/ref/vt"
 	"verif/seq"
 )
@@ -157,7 +158,7 @@ func newRigEnv(ti *terminfo.Terminfo, cs string, wd, ht int) (*rig, string) {
 // expect says what a cell holding rune x (alone) must display: the characters in order.
 func (r *rig) expect(x rune) (chars []rune, canPlain, canFB bool) {
 	wd := runewidth.RuneWidth(x)
-	if wd == 0 || x < ' ' {
+	if wd == 0 || x < ' ' || shadow.Invisible(x) {
 		return []rune{' '}, false, false // blanked; CanDisplay of such runes is not constrained here
 	}
 	pad := func(s []rune) []rune {
@@ -274,11 +275,15 @@ func sweep(entries []common.Entry) {
 				}
 				n++
 				wd := runewidth.RuneWidth(rr)
+				if shadow.Invisible(rr) {
+					wd = 0 // format characters and non-spacing marks take no cell of their own
+				}
 				chars, canPlain, canFB := r.expect(rr)
 				// narrow/wide content at column 0, and as a combining rune after 'a' at column 3
 				r.s.SetContent(0, 0, rr, nil, tcell.StyleDefault)
 				r.s.SetContent(1, 0, ' ', nil, tcell.StyleDefault)
-				isMark := wd == 0 && rr >= 0xa0 // combining lists are limited to zero-width non-control marks
+				nonchar := (rr >= 0xfdd0 && rr <= 0xfdef) || rr&0xfffe == 0xfffe
+				isMark := wd == 0 && rr >= 0xa0 && !nonchar // combining lists are limited to zero-width non-control marks
 				// ... and runes the charset cannot represent: as combining content they are
 				// elided, whatever else was drawn with the same rune before
 				elided := !isMark && rr >= 0xa0 && !encodable(r.enc, rr)
